@@ -116,6 +116,26 @@ func vxH_C08_fold() {
 	ref := vxRefFold(K, vc.layers...)
 	snap, err := vc.c.Snapshot()
 	vxAssert("snapshot-ok", err == nil)
+	if vc.nLower > 0 && vxChoose(2) == 1 {
+		// SkipLowerLevel: Get and the iterator agree on the fold over
+		// everything above the lower level
+		up := vxRefFold(K, vc.layers[vc.nLower:]...)
+		g, gerr := snap.Get(kb, ReadOptions{SkipLowerLevel: true})
+		vxAssert("skip-get-ok", gerr == nil)
+		vxAssert("skip-get-equals-upper-fold", vxFoldIs(g, up))
+		sit, serr := snap.StartIterator(kb, nil, IteratorOptions{SkipLowerLevel: true})
+		vxAssert("skip-iter-ok", serr == nil)
+		ik, iv, ierr := sit.Current()
+		if ierr == ErrIteratorDone {
+			vxAssert("skip-iter-done-means-absent", vxNot(up.live))
+		} else {
+			atK := vxKeyEq(vxKeyOf(ik), K)
+			vxAssert("skip-iter-entry-equals-upper-fold", vxAnd(vxImplies(atK, vxFoldIs(iv, up)), vxImplies(up.live, atK)))
+		}
+		sit.Close()
+		snap.Close()
+		return
+	}
 	sgot, err := snap.Get(kb, ReadOptions{})
 	vxAssert("snapshot-get-ok", err == nil)
 	vxObserveBytes("snapshot-get", sgot)
